@@ -30,8 +30,8 @@ ASSUMPTIONS = ['scale factors are powers of two, so the transformed input is exa
                'float comparisons use 1e-10 relative tolerance (summation order inside pandas may differ after a renaming)']
 EXHAUSTIVE = {'quick': False, 'thorough': False}
 HASH_SEEDS = {'quick': [0], 'thorough': [0, 1, 2]}
-MINIMA = {'quick': {'text_label_dates': 10, 'share_bound_on_library_value': 15, 'impact_tie_cases': 8, 'pairs_with_restated_rows': 30, 'pairs_compared': 300, 'designs_compared': 400, 'distinct_nontrivial': 150, 'set:transforms': 6},
-          'thorough': {'text_label_dates': 150, 'share_bound_on_library_value': 200, 'impact_tie_cases': 100, 'pairs_with_restated_rows': 400, 'pairs_compared': 4000, 'designs_compared': 6000, 'distinct_nontrivial': 2000, 'set:transforms': 6}}
+MINIMA = {'quick': {'twin_geos_int_vs_str_ids': 12, 'text_label_dates': 10, 'share_bound_on_library_value': 15, 'impact_tie_cases': 8, 'pairs_with_restated_rows': 30, 'pairs_compared': 300, 'designs_compared': 400, 'distinct_nontrivial': 150, 'set:transforms': 6},
+          'thorough': {'twin_geos_int_vs_str_ids': 150, 'text_label_dates': 150, 'share_bound_on_library_value': 200, 'impact_tie_cases': 100, 'pairs_with_restated_rows': 400, 'pairs_compared': 4000, 'designs_compared': 6000, 'distinct_nontrivial': 2000, 'set:transforms': 6}}
 N = {'quick': 420, 'thorough': 5000}
 CASE_TIMEOUT = {'quick': 300, 'thorough': 900}
 
@@ -97,7 +97,8 @@ def transform(case, r, kind):
     else:
       panel['dates'] = [pd.Timestamp(d) for d in days]
   if 'scale' in kinds:
-    k = r.choice([r.randrange(-3, 13), r.randrange(14, 32), r.randrange(16, 32), r.randrange(-30, -10), r.randrange(-75, -50)])
+    k = r.choice([r.randrange(-3, 13), r.randrange(14, 32), r.randrange(16, 32), r.randrange(-30, -10), r.randrange(-75, -50),
+                  r.randrange(-75, -55), r.randrange(-75, -60), r.choice([255, 260, 270, -255, -260, -270])])
     c = 2.0 ** k
     panel['values'] = panel['values'] * c
     if panel.get('dups'):
@@ -127,6 +128,11 @@ def run_case(spec):
     G = r.randrange(2, 13 if tier == 'quick' else 21)
   id_style = r.choice(['int', 'intmix', 'numstr']) if kind in ('id_type', 'all') else None
   cls = 'duplicates' if spec['idx'] % 17 == 0 else None
+  twin_ids = kind == 'id_type' and spec['idx'] % 12 == 8 and G >= 3
+  if twin_ids:
+    # two geos with identical series, integer IDs whose numeric and text orders differ, enough designs kept to see
+    # the order: the int and the str presentation of the same IDs must give the same result
+    cls, id_style = 'duplicates', 'intmix'
   if kind in ('date_shift', 'all') and r.random() < 0.4:
     dstyle = r.choice(['tz', 'timeofday'])
   elif kind == 'shuffle' and r.random() < 0.35:
@@ -145,6 +151,10 @@ def run_case(spec):
         dups.append((i, k, float(pn['values'][i, k]) * r.choice([0.5, 0.9, 1.1, 1.5])))
     pn['dups'] = dups
     case['frame'] = gen.panel_frame(pn, r, shuffle=True)
+  if twin_ids:
+    case['params']['n_designs'] = r.choice([3, 5, 50])
+    for k2 in ('budget_range', 'treatment_share_range'):
+      case['params'].pop(k2, None)
   unit_scaled = any(f.startswith('unit=') for f in case['panel']['features'])
   if kind == 'rename' and spec['idx'] % 5 in (0, 1, 2) and G >= 4 and not unit_scaled:
     # two geos with EXACTLY equal single-geo required impact but different volume (one is the other mirrored in
@@ -196,6 +206,7 @@ def run_case(spec):
   desc = sl.describe(case, with_frame=False)
   counters = collections.Counter(counters_extra)
   counters['text_label_dates'] += dstyle == 'dmy'
+  counters['twin_geos_int_vs_str_ids'] += bool(twin_ids)
   violations = []
   a = sl.run_search(case, which)
   b = sl.run_search(tcase, which)
@@ -247,7 +258,8 @@ def run_case(spec):
     if not scores_equal:
       violations.append({'clause': 'scores', 'mech': 'invariance:%s:scores' % kind, 'detail': '[%s] %s' % (tag, first_diff)})
     elif not groups_equal:
-      if tied_panel:
+      if tied_panel and kind in ('rename', 'all'):
+        # exactly tied geos are ordered by name: only a renaming may legitimately swap them
         counters['tie_ambiguous'] += 1
       else:
         violations.append({'clause': 'groups', 'mech': 'invariance:%s:groups' % kind, 'detail': '[%s] %s' % (tag, first_diff)})
